@@ -111,8 +111,10 @@ var fams = map[string]family{
 }
 
 type Svc struct {
-	mu    sync.Mutex
-	execs map[uint64]int
+	mu      sync.Mutex
+	execs   map[uint64]int
+	entered chan struct{} // the handler of request 88 has started
+	gate    chan struct{} // ... and waits for this
 }
 
 func (s *Svc) do(t uint64, d []byte) (uint64, []byte, error) {
@@ -121,6 +123,10 @@ func (s *Svc) do(t uint64, d []byte) (uint64, []byte, error) {
 	s.mu.Unlock()
 	if t == 13 {
 		return 0, nil, errors.New("unlucky thirteen")
+	}
+	if t == 88 {
+		close(s.entered)
+		<-s.gate
 	}
 	out := make([]byte, len(d))
 	for i := range d {
@@ -186,7 +192,7 @@ func runOne(c cfg, port int, dir string) (transcript []string, note string) {
 	case "inproc":
 		addr = fmt.Sprintf("inproc-%d", port)
 	}
-	svc := &Svc{execs: map[uint64]int{}}
+	svc := &Svc{execs: map[uint64]int{}, entered: make(chan struct{}), gate: make(chan struct{})}
 	srv := rpc.NewServer()
 	srv.SetLogLevel(rpc.OffLogLevel)
 	srv.SetPoll(c.poll)
@@ -282,6 +288,44 @@ func runOne(c cfg, port int, dir string) (transcript []string, note string) {
 	}
 	if b := burst(c, addr, f); b != "" {
 		note += b
+	}
+	// the server goes away with a call outstanding (its handler is held): the call returns, Listen returns,
+	// and a Transport asked for that address afterwards reports ErrDial
+	if !c.poll { // (a poll-mode Server.Close does not end its netpoll workers promptly: recorded in DESIGN, not judged)
+		heldErr := make(chan string, 1)
+		go func() { heldErr <- call(f.method, 88, 10) }()
+		select {
+		case <-svc.entered:
+			srv.Close()
+			select {
+			case r := <-heldErr:
+				if r == "ok" || r == "TIMEOUT" {
+					note += "the call outstanding at Server.Close returned " + r + "; "
+				}
+			case <-time.After(12 * time.Second):
+				note += "the call outstanding at Server.Close did not return; "
+			}
+		case <-time.After(10 * time.Second):
+			note += "the held request never reached its handler; "
+		}
+		close(svc.gate)
+		tr := &rpc.Transport{Options: co}
+		if c.network == "inproc" || c.network == "unix" || c.network == "tcp" {
+			terr := make(chan error, 1)
+			go func() {
+				rep := f.newMsg(0, nil)
+				terr <- tr.Call(addr, "Svc."+f.method, f.newMsg(5, payload(5, 8)), rep)
+			}()
+			select {
+			case e := <-terr:
+				if e != rpc.ErrDial {
+					note += fmt.Sprintf("a Transport call to the closed server returned %v, want ErrDial; ", e)
+				}
+			case <-time.After(10 * time.Second):
+				note += "a Transport call to the closed server did not return; "
+			}
+		}
+		tr.Close()
 	}
 	conn.Close()
 	srv.Close()
